@@ -29,11 +29,15 @@ def static_desc(rng):
                    "com.github.googlei18n.ufo2ft.filters": [{"name": "propagateAnchors", "pre": True}]}
     desc["features"] = "languagesystem DFLT dflt;\nlanguagesystem latn dflt;\n"
     # marks whose classes conflict pairwise (the grouping of mark classes is a graph colouring)
-    keys = ["top", "bottom", "ogonek", "cedilla", "ring"]
-    for k, (a, b) in enumerate([(0, 1), (1, 2), (2, 0), (3, 4), (4, 0), (2, 3)]):
+    # (a random conflict graph per font: chains such as a-b, c-d, b-c are where a greedy colouring depends on the visiting order)
+    keys = ["top", "bottom", "ogonek", "cedilla", "ring", "horn"]
+    allpairs = [(a, b) for a in range(len(keys)) for b in range(a + 1, len(keys))]
+    edges = rng.sample(allpairs, rng.randint(3, 6)) if rng.random() < 0.8 else [(0, 1), (1, 2), (2, 0), (3, 4), (4, 0), (2, 3)]
+    rng.shuffle(keys)
+    for k, (a, b) in enumerate(edges):
         desc["glyphs"].append({"name": "mk%d" % k, "unicodes": [0x300 + k + 16], "width": 0, "contours": [], "components": [],
                                "anchors": [("_" + keys[a], Fr(10 * k), Fr(500)), ("_" + keys[b], Fr(0), Fr(-20 - k)),
-                                           (keys[(a + 2) % 5], Fr(5), Fr(700 + k))]})
+                                           (keys[(a + 2) % len(keys)], Fr(5), Fr(700 + k))]})
     desc["glyphs"].append({"name": "basemk", "unicodes": [0x65], "width": 500, "contours": [], "components": [],
                            "anchors": [(kk, Fr(100 + 7 * j), Fr(600 - 50 * j)) for j, kk in enumerate(keys)]})
     names = [g["name"] for g in desc["glyphs"]]
